@@ -9,7 +9,7 @@ import json
 import random
 
 from vlib import core, pipeline as P, diffrun
-from vgen import gen as G, gen2 as G2, emit as E, corpus, ref as R
+from vgen import gen as G, gen2 as G2, emit as E, corpus, ref as R, byods as B
 
 LEVEL = 'fault_enumeration'
 
@@ -35,6 +35,11 @@ def gen_cases(ctx):
                     return rows
             return rows[:40]
         progs.append(('k_' + name, prog, mk2, rng, sz['corpus_inputs']))
+    for provider in ('eqrel', 'trrel', 'trrel_uf'):
+        for ternary in (False, True):
+            rng = random.Random(ctx.rng.getrandbits(48))
+            bprog, binputs, bmk = B.simple_positive_program(rng, provider, ternary)
+            progs.append(('b_%s%d' % (provider, 3 if ternary else 2), (bprog, B.reference_program(bprog, provider, ['r'])), bmk, rng, sz['corpus_inputs'] + 1))
     n = 0
     while n < sz['programs']:
         rng = random.Random(ctx.rng.getrandbits(48))
@@ -57,9 +62,13 @@ def gen_cases(ctx):
         progs.append(('c%d' % n, prog, mk, rng, sz['inputs']))
         n += 1
     for (name, prog, mk, rng, ninputs) in progs:
-        vs = [E.Variant('ser', prog, 'ascent', timeout=True),
-              E.Variant('sert', prog, 'ascent', timeout=True, extra_attrs=['measure_rule_times']),
-              E.Variant('par', prog, 'ascent_par', timeout=True)]
+        if isinstance(prog, tuple):
+            vprog, prog = prog       # BYODS: tagged program vs untagged reference with explicit closure rules
+            vs = [E.Variant('ser', vprog, 'ascent', timeout=True), E.Variant('sert', vprog, 'ascent', timeout=True, extra_attrs=['measure_rule_times'])]
+        else:
+            vs = [E.Variant('ser', prog, 'ascent', timeout=True),
+                  E.Variant('sert', prog, 'ascent', timeout=True, extra_attrs=['measure_rule_times']),
+                  E.Variant('par', prog, 'ascent_par', timeout=True)]
         case = P.Case(name, prog, vs, meta={'kind': 'corpus' if name.startswith('k_') else 'random'})
         case.inputs = [mk(rng) for _ in range(ninputs)]
         case.rng = rng
